@@ -60,7 +60,7 @@ def run_tlc(ctx, module_path, cfg_text=None, cfg_path=None, env=None, workers=No
         with open(cfg_path, "w") as f:
             f.write(cfg_text)
     meta = os.path.join(ctx.dir, "meta_" + tag)
-    cmd = ["timeout", str(timeout), "java", "-XX:+UseParallelGC"]
+    cmd = ["timeout", str(timeout), "java", "-XX:+UseParallelGC", "-Xss64m"]      # deep recursive operators over long histories (thorough tier)
     if heap:
         cmd.append("-Xmx" + heap)
     cmd += ["-cp", "/opt/veriftools/tla/tla2tools.jar:/opt/veriftools/tla/CommunityModules-deps.jar", "tlc2.TLC", "-noGenerateSpecTE",
